@@ -227,7 +227,6 @@ func sLockDiscipline(c *Ctx, rule string, only ...string) {
 	}
 }
 
-
 // sAtomicOnly: fields that several goroutines read and write without a mutex
 // are touched through sync/atomic only – a plain load or store next to atomic
 // ones is a data race (and, for the 64-bit counters, a torn value on 32-bit
